@@ -19,3 +19,5 @@ mod h_packet;
 mod h_extdef;
 #[cfg(kani)]
 mod h_vxlib;
+#[cfg(kani)]
+mod h_io;
